@@ -48,7 +48,7 @@ def main():
     rc1, out1 = sh(demo_cmd, cwd=dst)
     log.append({"cmd": f"(with the change) {demo_cmd}", "exit": rc1, "tail": out1[-300:]})
     sh("git checkout -- . && git clean -fdq src", cwd=wt)
-    for junk in ("demo/target",):
+    for junk in ("demo/target", "demo/work"):
         shutil.rmtree(os.path.join(dst, junk), ignore_errors=True)
     ok = (rc0 == 0 and rc1 != 0 and passed == 142 and not failed and rcb == 0)
     meta["confirmed_by_lead"] = {"ok": ok, "demo_cmd": demo_cmd, "log": log}
